@@ -132,9 +132,7 @@ func c15Producer(timeouts bool) {
 	verifrt.Tag("[items=" + string(rune('0'+n)) + " before-timer=" + string(rune('0'+early)) + " failing-calls=" + string(rune('0'+nFaults)) + " batch=" + string(rune('0'+batchSize)) + "]")
 	hops := make([]int, n)
 	feed := func(i int) {
-		if !timeouts {
-			hops[i] = int(verifrt.IntRange("hops", 0, 2))
-		}
+		hops[i] = i + 1 // (every hop count 0..12 goes through the path encoding in VerifH_C15_hops_roundtrip)
 		it := models.NewItem("id"+string(rune('0'+i)), &models.URL{Raw: "http://o.example/" + string(rune('a'+i)), Hops: hops[i]}, "http://parent.example/")
 		produce <- it
 	}
